@@ -1,4 +1,4 @@
-import PoolProofs.C16Lemmas
+import PoolProofs.C16LemmasLive
 /-!
 C16 — sidecar auto-negotiation is safe under any delivery order and restart.
 
@@ -42,17 +42,21 @@ example : (run init [.proc false, .deliver true 0, .proc true, .proc true, .proc
 
 /-! ## (2) expecting a channel only for a validated ticket -/
 
-/-- FULL statement: every successful `ExpectChannel` of a reachable run is for a ticket that carries the provider's
-valid order signature over the registered offer. -/
-def C16_expect_only_validated_full_statement : Prop :=
-  ∀ s, Reachable s → ∀ t, (false, Eff.expect t true) ∈ s.log → ValidSigned t
+/-- Every successful `ExpectChannel` of every reachable run (any delivery order, duplicates, restarts, crash points,
+cancellations; unbounded) is for a ticket that carries the provider's valid offer signature and valid order signature
+over a non-zero nonce and is the ticket the recipient registered (store key). By induction over every transition with
+the ticket invariant `InvB` (what each side holds, what travels on the wire). Only the recipient ever expects. -/
+theorem C16_expect_only_validated (s : Sys) (h : Reachable s) :
+    ∀ t, (false, Eff.expect t true) ∈ s.log → ValidSigned t := by
+  intro t ht
+  obtain ⟨hb, hs⟩ := (reachable_InvB s h).log t ht
+  exact ⟨hb.1, hb.2, hs⟩
 
-/-- Proved part (every step of the recipient, ANY incoming ticket, any local ticket): a successful `ExpectChannel`
-happens either right after `validateOrderedTicket` accepted that very ticket — which then carries a valid offer
-signature, a valid order signature over a non-zero nonce and is the ticket the store knows — or in the "already
-expecting" state (re-registration after a restart; extra hypothesis needed for the full statement: every ticket the
-honest provider sends in a state other than offered/canceled is the signed ordered ticket). -/
-theorem C16_expect_only_validated_partial (s : Sys) (cur : Nat) (l pkt t' : Ticket)
+/-- Step level, for ANY incoming ticket (also tickets no honest provider would send) and any local ticket: a successful
+`ExpectChannel` happens either right after `validateOrderedTicket` accepted that very ticket or in the "already
+expecting" state (re-registration after a restart - there the ticket is NOT re-validated by the code; the system
+theorem above shows that honest runs only deliver the signed ticket in that state). -/
+theorem C16_expect_step_any_ticket (s : Sys) (cur : Nat) (l pkt t' : Ticket)
     (h : Eff.expect t' true ∈ (stepRecipient (envR s) cur (some l) (some pkt)).effs) :
     (cur = sRegistered ∧ pkt.state = sOrdered ∧ ValidSigned pkt ∧ t' = { pkt with state := sExpecting }) ∨
     cur = sExpecting := by
@@ -71,25 +75,25 @@ example : (stepRecipient (envR init) sRegistered (some tRegistered)
 
 /-! ## (3) persisted state never moves backwards -/
 
-/-- the order of the property: offered < registered < ordered < expecting < completed; a terminal state never
-changes; canceled may be entered from every non-terminal state -/
-def Mono (a b : Nat) : Prop :=
-  (isTerminal a = true → b = a) ∧ (isTerminal a = false → a ≤ b ∨ b = sCanceled)
+/-- In every reachable state every enabled transition (delivery, handler step, crash inside a handler, restart,
+cancellation, completion, …) leaves the persisted ticket state of BOTH sides monotone in the order
+offered < registered < ordered < expecting < completed, with canceled reachable from every non-terminal state and
+terminal states final (`Mono`). By induction with the loop invariant `InvA` (`pRel`: created/offered ↦ offered,
+registered/ordered ↦ registered, expecting ↦ expecting; a running negotiator never has a terminal ticket). -/
+theorem C16_persisted_state_monotone (s : Sys) (h : Reachable s) (a : Act) (s' : Sys)
+    (ha : apply s a = some s') :
+    Mono s.p.store.state s'.p.store.state ∧ Mono s.r.store.state s'.r.store.state := by
+  unfold apply at ha
+  rw [finReturns_true] at ha
+  exact (stepA s s' a (reachable_InvA s h) ha).2
 
-def C16_persisted_state_monotone_full_statement : Prop :=
-  ∀ s, Reachable s → ∀ a s', apply s a = some s' →
-    Mono s.p.store.state s'.p.store.state ∧ Mono s.r.store.state s'.r.store.state
-
-/-- relation between the provider's in-memory state and its persisted ticket state (the loop invariant the full
-statement needs: created/offered ↦ offered, registered/ordered ↦ registered, expecting ↦ expecting) -/
-def pRel (cur st : Nat) : Prop :=
-  ((cur = sCreated ∨ cur = sOffered) ∧ st = sOffered) ∨ ((cur = sRegistered ∨ cur = sOrdered) ∧ st = sRegistered) ∨
-  (cur = sExpecting ∧ st = sExpecting) ∨ (cur = sCanceled ∧ (st = sOffered ∨ st = sRegistered ∨ st = sExpecting))
+/-- … and no nil dereference of the step functions or run loops is reachable. -/
+theorem C16_no_panic (s : Sys) (h : Reachable s) : s.panicked = false := (reachable_InvA s h).np
 
 /-- Proved part (every handler step of the provider, ANY incoming and local ticket): the only store writes are
 "registered" while the in-memory state is "offered" and "expecting" while it is "ordered"/"expecting" — under
 `pRel` each of them is ≥ the persisted state and non-terminal. -/
-theorem C16_persisted_state_monotone_partial (s : Sys) (cur w : Nat) (l pkt : Ticket)
+theorem C16_provider_store_writes (s : Sys) (cur w : Nat) (l pkt : Ticket)
     (h : w ∈ writes (stepProvider (envP s) cur (some pkt) (some l)).effs) :
     (cur = sOffered ∧ w = sRegistered) ∨ ((cur = sOrdered ∨ cur = sExpecting) ∧ w = sExpecting) := by
   simp only [stepProvider, prov_select] at h
@@ -106,9 +110,9 @@ theorem C16_persisted_state_monotone_partial (s : Sys) (cur w : Nat) (l pkt : Ti
 /-- … so under the loop invariant a write never moves the persisted state backwards -/
 theorem C16_persisted_state_monotone_step (s : Sys) (cur st w : Nat) (l pkt : Ticket) (hr : pRel cur st)
     (h : w ∈ writes (stepProvider (envP s) cur (some pkt) (some l)).effs) : Mono st w := by
-  rcases C16_persisted_state_monotone_partial s cur w l pkt h with ⟨hc, hw⟩ | ⟨hc, hw⟩ <;>
-    unfold pRel at hr <;> unfold Mono <;>
-    simp_all [isTerminal, terminalStates, sCreated, sOffered, sRegistered, sOrdered, sExpecting, sCanceled] <;> omega
+  rcases C16_provider_store_writes s cur w l pkt h with ⟨hc, hw⟩ | ⟨hc, hw⟩ <;>
+    unfold pRel at hr <;> rw [Mono_iff] <;>
+    simp_all [sCreated, sOffered, sRegistered, sOrdered, sExpecting, sCanceled] <;> omega
 
 example : pRel sOffered sOffered ∧
     sRegistered ∈ writes (stepProvider (envP init) sOffered (some tRegistered) (some tOffered)).effs := by
@@ -116,8 +120,12 @@ example : pRel sOffered sOffered ∧
   · unfold pRel; simp
   · decide
 
+-- non-vacuity of the system theorem: a transition that does write (offered → registered)
+example : (run init [.proc false, .deliver true 0, .proc true]).map (·.p.store.state) = some sRegistered := by
+  decide
+
 /-- the recipient's handlers only ever write "expecting" (from registered or expecting) -/
-theorem C16_persisted_state_monotone_recipient_partial (s : Sys) (cur : Nat) (l pkt : Ticket) :
+theorem C16_recipient_store_writes (s : Sys) (cur : Nat) (l pkt : Ticket) :
     ∀ w ∈ writes (stepRecipient (envR s) cur (some l) (some pkt)).effs, w = sExpecting := by
   intro w h
   simp only [stepRecipient, recp_select] at h
@@ -135,20 +143,50 @@ theorem C16_finalization_is_final (prov : Bool) (x : Party) (l : Ticket) (st : N
 
 /-! ## (4) a cancellation ends both -/
 
-def C16_cancel_ends_both_full_statement : Prop :=
-  ∀ s, Reachable s → ∀ prov : Bool,
-    -- a side whose persisted ticket is canceled has no running negotiator, and nothing but a restart
-    -- (which finds a terminal ticket and starts nothing) is enabled for it
-    ((getParty s prov).store.state = sCanceled → (getParty s prov).alive = false) ∧
-    -- a side that handled the other side's cancel message has the finalization pending, taking it is enabled and
-    -- persists "canceled" and ends the loop
-    ((getParty s prov).finPend = true → (getParty s prov).alive = true)
+/-- A cancellation by either side ends both. In every reachable state, for either side `prov`:
+(a) a side whose persisted ticket is terminal (canceled/completed) has no running negotiator (and by
+    `C16_persisted_state_monotone` the ticket never changes again; `C16_terminal_ticket_not_resumed`: a restart starts
+    nothing);
+(b) the user's cancellation (`CancelSidecar`) persists "canceled", ends the own negotiator, and - whenever a negotiator
+    was running and the other side may be listening (always for the recipient; for the provider once a recipient
+    registered) - puts the canceled ticket into the other side's mailbox;
+(c) a side that handles that ticket (in any state but the transient "created") goes to the in-memory state canceled
+    with the finalization pending, its persisted ticket untouched;
+(d) whenever a finalization is pending its hand-off is enabled, persists "canceled" and ends that side too. -/
+theorem C16_cancel_ends_both (s : Sys) (h : Reachable s) (prov : Bool) :
+    (isTerminal (getParty s prov).store.state = true → (getParty s prov).alive = false) ∧
+    (∀ s', apply s (.cancelRPC prov) = some s' →
+      (getParty s' prov).store.state = sCanceled ∧ (getParty s' prov).alive = false ∧
+      ((getParty s prov).alive = true → (prov = false ∨ sRegistered ≤ (getParty s prov).cur) →
+        ∃ t, t.state = sCanceled ∧ t ∈ (if prov then s'.toR else s'.toP))) ∧
+    (∀ pkt s', (getParty s prov).alive = true → nextPkt (getParty s prov) = some pkt → pkt.state = sCanceled →
+      (getParty s prov).cur ≠ sCreated → apply s (.proc prov) = some s' →
+      (getParty s' prov).finPend = true ∧ (getParty s' prov).cur = sCanceled ∧ (getParty s' prov).alive = true ∧
+      (getParty s' prov).store = (getParty s prov).store) ∧
+    ((getParty s prov).alive = true → (getParty s prov).finPend = true → (getParty s prov).loopPkt = none →
+      ∃ s', apply s (.fin prov) = some s' ∧ (getParty s' prov).store.state = sCanceled ∧
+        (getParty s' prov).alive = false) := by
+  have hA := reachable_InvA s h
+  unfold apply
+  rw [finReturns_true]
+  refine ⟨?_, fun s' ha => cancelRPC_spec s s' prov hA ha,
+    fun pkt s' hal hn hs hc ha => proc_cancel_msg s s' prov pkt hA hal hn hs hc ha,
+    fun hal hf hlp => fin_spec s prov hA hal hf hlp⟩
+  intro ht
+  rw [term_iff] at ht
+  cases prov
+  · simp only [getParty, Bool.false_eq_true, if_false] at ht ⊢
+    cases hx : s.r.alive
+    · rfl
+    · have := (hA.ral hx).2; omega
+  · simp only [getParty, if_true] at ht ⊢
+    cases hx : s.p.alive
+    · rfl
+    · have := (hA.pal hx).2; unfold pRel at this; omega
 
-/-- Proved part (a): the finalization branch (own cancellation, or the hand-off after the other side's cancel
-message) persists the final state and ENDS the loop (`C16_finalization_is_final` above); and a side whose loop has
-ended has no enabled handler: no packet, no finalization, no delivery is ever handled again — only a restart, which
-finds a terminal ticket and starts nothing (`restartParty`). -/
-theorem C16_cancel_ends_both_partial (s : Sys) (prov : Bool) (st : Nat)
+/-- a side whose loop has ended has no enabled handler: no packet, no finalization, no delivery is ever handled again
+— only a restart, which finds a terminal ticket and starts nothing (`C16_terminal_ticket_not_resumed`). -/
+theorem C16_ended_side_disabled (s : Sys) (prov : Bool) (st : Nat)
     (h : (getParty s prov).alive = false) :
     apply s (.proc prov) = none ∧ apply s (.fin prov) = none ∧ apply s (.finalize prov st) = none ∧
     (∀ k, apply s (.procCrash prov k) = none) ∧ ∀ i, apply s (.deliver prov i) = none := by
@@ -162,20 +200,8 @@ theorem C16_terminal_ticket_not_resumed (prov : Bool) (x : Party) (h : isTermina
     (restartParty prov x).alive = false ∧ (restartParty prov x).store = x.store := by
   unfold restartParty; simp [h]
 
-/-- Proved part (b): handling the other side's cancel message (any state but the transient "created") makes the
-step return "canceled" and spawn the finalization, for ANY local ticket. -/
-theorem C16_cancel_message_spawns_finalization (s : Sys) (cur : Nat) (l pkt : Ticket)
-    (hc : pkt.state = sCanceled) (hcur : cur ≠ sCreated) :
-    (stepProvider (envP s) cur (some pkt) (some l)).effs = [.spawnFin] ∧
-    (stepProvider (envP s) cur (some pkt) (some l)).res = .ok sCanceled (some pkt) (some l) ∧
-    (stepRecipient (envR s) cur (some l) (some pkt)).effs = [.spawnFin] ∧
-    (stepRecipient (envR s) cur (some l) (some pkt)).res = .ok sCanceled (some l) (some pkt) := by
-  have hcur' : ¬ cur = 0 := hcur
-  simp only [stepProvider, stepRecipient, prov_select, recp_select, provSel, recpSel, hc]
-  simp [hcur', provBody, recpBody, sCanceled]
-
 -- non-vacuity: cancel by the provider after the happy path; the recipient handles the message and ends as well
-example : (run init (happyP ++ [.finalize true sCanceled, .deliver false 1, .proc false, .fin false])).map
+example : (run init (happyP ++ [.cancelRPC true, .deliver false 1, .proc false, .fin false])).map
     (fun s => (s.p.alive, s.p.store.state, s.r.alive, s.r.store.state)) =
     some (false, sCanceled, false, sCanceled) := by decide
 
@@ -217,32 +243,40 @@ theorem C16_real_driver_never_reports_exists (b : Bool) (t : Ticket) :
 
 /-! ## (5) liveness without restarts -/
 
-def bothExpecting (s : Sys) : Bool :=
-  s.p.alive && s.p.cur == sExpecting && s.r.alive && s.r.cur == sExpecting
-
-/-- only deliveries (of any sent ticket, again and again), handler steps and receive errors -/
-def noRestartAct : Act → Bool
-  | .deliver _ _ | .proc _ | .recvErr _ => true
-  | _ => false
-
 def ReachableNR (s : Sys) : Prop := ∃ as, as.all noRestartAct = true ∧ run init as = some s
 
-/-- FULL statement: from every state reachable without restarts/cancellations a finite sequence of deliveries and
-handler steps reaches both-expecting, and both-expecting is stable under such steps. -/
-def C16_progress_full_statement : Prop :=
-  (∀ s, ReachableNR s → ∃ as s', as.all noRestartAct = true ∧ run s as = some s' ∧ bothExpecting s' = true) ∧
-  (∀ s, ReachableNR s → bothExpecting s = true → ∀ a s', noRestartAct a = true → apply s a = some s' →
-    bothExpecting s' = true)
+/-- When neither party is restarted (and nobody cancels) – only deliveries of any sent ticket, in any order and any
+number of times, handler steps and receive errors happen – then from EVERY state reachable that way a finite
+sequence of deliveries and handler steps reaches both-expecting, and both-expecting is stable under all such steps
+(so under fair delivery both parties reach and keep the expecting-channel state). Proof: the no-restart reachable
+states are characterised in closed form (`NRc`/`mk`: provider phase, recipient phase, what sits in the two
+packetChans, how often the ordered ticket was sent), shown closed under every such transition (`NR_closure`), and the
+delivery sequence is constructed phase by phase (`NR_progress`). -/
+theorem C16_progress :
+    (∀ s, ReachableNR s → ∃ as s', as.all noRestartAct = true ∧ run s as = some s' ∧ bothExpecting s' = true) ∧
+    (∀ s, ReachableNR s → bothExpecting s = true → ∀ a s', noRestartAct a = true → apply s a = some s' →
+      bothExpecting s' = true) := by
+  have reach : ∀ s, ReachableNR s → ∃ c, NRok c ∧ s = mk c := by
+    intro s ⟨as, hall, hrun⟩
+    unfold run at hrun
+    rw [finReturns_true, init_eq_mk] at hrun
+    exact NR_run as _ NRok_init hall s hrun
+  constructor
+  · intro s hs
+    obtain ⟨c, hok, rfl⟩ := reach s hs
+    obtain ⟨as, c', hall, hrun, hok', hp, hr⟩ := NR_progress c hok
+    refine ⟨as, mk c', hall, ?_, (bothExpecting_mk c' hok').2 ⟨hp, hr⟩⟩
+    unfold run; rw [finReturns_true]; exact hrun
+  · intro s hs hb a s' hn ha
+    obtain ⟨c, hok, rfl⟩ := reach s hs
+    unfold apply at ha
+    rw [finReturns_true] at ha
+    exact NR_stable c hok ((bothExpecting_mk c hok).1 hb) a hn s' ha
 
 def fairRun : List Act := happyP ++ [.deliver false 0, .proc false]
 
-/-- Proved part (NOT the full statement): the fair run from the initial state reaches both-expecting without any
-restart, and re-delivering every ticket sent so far — in both directions, incl. the re-sent ordered ticket the
-first re-delivery produces — leaves both sides expecting. The general statement (every no-restart reachable state)
-is checked by the harness' fair-delivery runs on the real code only. -/
-theorem C16_progress_partial :
-    fairRun.all noRestartAct = true ∧
-    (run init fairRun).map bothExpecting = some true ∧
+-- non-vacuity: the fair run is a no-restart run and ends both-expecting; duplicates keep it there
+example : fairRun.all noRestartAct = true ∧ (run init fairRun).map bothExpecting = some true ∧
     (run init (fairRun ++ [.deliver true 0, .proc true, .deliver false 0, .proc false, .deliver false 1,
       .proc false, .recvErr true, .recvErr false])).map bothExpecting = some true := by decide
 
